@@ -387,6 +387,27 @@ def sweep_overlapped_planning(run: Any) -> str | None:
     return None
 
 
+def double_plan_witness(run: Any) -> str | None:
+    """Mechanism classifier: ONE StartStage message was planned by two workers - its lock lapsed while the
+    first worker was between its claim and its plan commit, the second worker took the RUNNING stage without
+    tasks or synthetic children for a zombie and re-planned it; both inserted the stage's synthetic children,
+    the loser's copies stay NOT_STARTED for ever."""
+    groups = Groups(run.commits)
+    since = getattr(run, "since", 0)
+    by_msg: dict[Any, set] = {}
+    for a in run.audit:
+        if a["seq"] <= since or a["kind"] != "status" or a["op"] != "stage_ins":
+            continue
+        g = groups.of(a["seq"])
+        tag = groups.tag(g)
+        if tag and tag[0] == "StartStage":
+            by_msg.setdefault(tag[1], set()).add(groups.thread(g))
+    for mid, threads in by_msg.items():
+        if len(threads) >= 2:
+            return f"StartStage row {mid} inserted synthetic stages from {len(threads)} worker threads {sorted(map(str, threads))}: the stage was planned twice (zombie re-plan while the first claimer was still planning)"
+    return None
+
+
 def lost_plan_witness(run: Any) -> str | None:
     """Mechanism classifier: a StartStage handler claimed a stage (NOT_STARTED->RUNNING
     committed) but its plan commit never happened although the message was marked
